@@ -264,7 +264,7 @@ pub fn family_b(records: &[&str], tag: &str) -> Vec<Inp> {
     v
 }
 pub fn family_tiny() -> Vec<Inp> {
-    let texts: &[&[u8]] = &[b"INFO a\nINFO b\n", b"\n\n\n", b"INFO a\r\n\r\nINFO b\n", b"MODULE a b c d\n", b"INFO a\nINFO b", b"INFO abcdefghi\n", b"PUBLIC 1 0 f\n\n", b"BOGUS\nINFO a\n", b"INFO a\nBOGUS\n"];
+    let texts: &[&[u8]] = &[b"", b"\n", b"INFO a\nINFO b\n", b"\n\n\n", b"INFO a\r\n\r\nINFO b\n", b"MODULE a b c d\n", b"INFO a\nINFO b", b"INFO abcdefghi\n", b"PUBLIC 1 0 f\n\n", b"BOGUS\nINFO a\n", b"INFO a\nBOGUS\n"];
     texts
         .iter()
         .map(|t| {
